@@ -40,6 +40,20 @@ def search(ctx, N):
                     ctx.violation('jacobian-shape:m=%s' % ('1' if m == 1 else '>1'), 'Jacobian of an affine map R^%d -> R^%d (length-%d vector) has shape %r' % (n, m, m, np.shape(J)), dict(desc, A=A.tolist()))
                 elif not np.allclose(J, A, rtol=1e-9, atol=1e-9 * (1 + np.max(np.abs(A)))):
                     ctx.violation('jacobian-affine:%s' % method, 'Jacobian of the affine map A x + b differs from A by %.3g (non-symmetric A, m=%d, n=%d)' % (float(np.max(np.abs(J - A))), m, n), dict(desc, A=A.tolist()))
+                # the same map returning its components as a list / tuple, x given as a list: same shape, same numbers
+                if np.shape(J) == (m, n):
+                    # (f returning a plain list cannot be differenced by the real-step stencils -- list - list -- and is outside the property)
+                    for vname, fv, xv in (('x is given as a list', lambda t: np.dot(A, np.asarray(t)) + b, x.tolist()),
+                                          ('x is given as a tuple', lambda t: np.dot(A, np.asarray(t)) + b, tuple(float(v) for v in x))):
+                        try:
+                            Jv = nd.Jacobian(fv, method=method, order=order)(xv)
+                        except Exception as ex:   # noqa
+                            ctx.violation('raises:container', 'nd.Jacobian raises %r when %s (m=%d, n=%d, method=%r)' % (ex, vname, m, n, method), dict(desc, A=A.tolist()))
+                            continue
+                        ctx.count(1, ('affine-container', method, m == 1))
+                        if np.shape(Jv) != (m, n) or not np.allclose(Jv, J, rtol=1e-12, atol=1e-12 * (1 + np.max(np.abs(A)))):
+                            ctx.violation('jacobian-container:m=%s' % ('1' if m == 1 else '>1'), 'Jacobian of an affine map R^%d -> R^%d: when %s the result has shape %r (expected %r) / other numbers' % (
+                                n, m, vname, np.shape(Jv), (m, n)), dict(desc, A=A.tolist(), variant=vname))
             elif kind == 1:
                 c = rng.uniform(0.5, 1.5, size=m)
 
